@@ -72,6 +72,16 @@ def run(res, tier, seed):
         tail = rnd.choice([" ? 1 : 2", "?1:2", "[0:1]", " ? 1, 2 ? 3", " == 1", " && 1", " || 2", " > 0 ? 'a' : 'b'", "?1", " ? 1 :", ".x", "(1)"])
         cases.append((("^st" + rnd.choice(["", " "]) + nm + val + tail).encode(), rnd.choice(pres[:2]), pegcases.ALL_ON if rnd.random() < 0.8 else [rnd.random() < 0.5 for _ in range(7)],
                       rnd.getrandbits(64), rnd.getrandbits(64), False))
+    # a dice term of any family, with any modifier, directly followed (no blank) by a word that begins like a continuation of the
+    # dice syntax (d, k, q, m, a, c, b, p, f, D ...) but is none: the term ends before the word, and what was parsed evaluates alone
+    for i in range(n // 8):
+        term = rnd.choice(["2d6", "d20", "3d6kh2", "4d6d8", "3d", "d", "2d6k1", "4d6dl1", "2d6min2", "2d6max5", "(2d4)d6", "5a8", "3a9m6k4", "3c8", "4c9m10", "b2", "p", "f", "2d(1+1)",
+                           "d4d6d8", "1d6q2", "3d6dh1", "[2d6, d4][0]", "2b", "10a"])
+        word = rnd.choice(["d", "dm", "dmg", "damage bonus", "D", "k", "kx", "kh", "khx", "kl", "q", "qq", "m", "mi", "min", "ma", "max", "maxx", "dh", "dl", "dlx", "a", "ab", "c", "b", "p", "f", "fx",
+                           "dd", "d d6", "d(", "d)", "d+", "k+1", "m5", "力量", "d力量", "a力", "优势", "劣势"])
+        pre = rnd.choice(["", "", "x = ", "1 + ", "bonus + ", "[", "(", "g("])
+        cases.append(((pre + term + word).encode(), rnd.choice(pres), pegcases.ALL_ON if rnd.random() < 0.8 else [rnd.random() < 0.5 for _ in range(7)],
+                      rnd.getrandbits(64), rnd.getrandbits(64), False))
     rows = go_c03(cases)
     accepted = [(c, r) for c, r in zip(cases, rows) if r["full"]["out"]["ok"]]
     for c, r in zip(cases, rows):
